@@ -194,7 +194,26 @@ def interleave_body(cfg):
 
 def _interleave(cfg, n, targets, pv, parent, children, nodes, store, hist):
     for step in range(cfg["K"]):
-        if nondet_bool("write%d" % step):
+        kind = nondet_int(0, 2 if cfg.get("retarget", True) else 1, "kind%d" % step)
+        if kind == 2:
+            # re-target a link at a later time: forwarding follows the link's CURRENT target
+            links = [i for i in range(n) if targets[i] is not None]
+            if not links:
+                return True
+            x = links[nondet_int(0, len(links) - 1, "link%d" % step)]
+            y = nondet_int(0, n - 1, "newtarget%d" % step)
+            z, cyc = y, False
+            while z is not None:
+                if z == x:
+                    cyc = True
+                    break
+                z = targets[z]
+            if cyc:
+                return True  # a link must not (transitively) point at itself
+            nodes[x].target = nodes[y]
+            targets[x] = y
+            hist.append(("retarget", x, y))
+        elif kind == 1:
             w = nondet_int(0, n - 1, "writer%d" % step)
             attr = ("foo", "x1")[nondet_int(0, 1, "attr%d" % step)]  # not 'name': it is %r-formatted into LoopError messages
             v = 100 + step  # concrete: node reprs (%r of every attribute) end up in LoopError messages
